@@ -203,11 +203,22 @@ package engine
 //@   requires txn == 0
 //@   modifies storeState, ioFailed
 
+// jlen(tf): the number of rows nestedLoopJoin yields for a table reference within the statement at hand. The assumed clause
+// "det" only gives that number a name (evaluating one table reference is deterministic while the statement holds its lock);
+// the proved clauses say that an outer join keeps every row of its preserved side, whatever the other side holds.
+//@ spec abstract jlen(tf any) int
 //@ func nestedLoopJoin(rm RelationManager, tf sql.TableReference) ([]*storage.Row, storage.Fields, error)
 //@   props C06 C18
 //@   requires txn == 1 && rm != nil && sql.tfWF(tf)
 //@   modifies storeState, ioFailed
 //@   ensures[txn; C13] txn == 1
+//@   ensures_assumed[det; C06] err == nil ==> len(result0) == jlen(tf)
+//@   ensures[left.all; C06] err == nil && typeof(tf) == typ(sql.QualifiedJoin) && tf.(sql.QualifiedJoin).JoinType == sql.LEFT_JOIN ==> len(result0) >= jlen(tf.(sql.QualifiedJoin).LHS)
+//@   ensures[right.all; C06] err == nil && typeof(tf) == typ(sql.QualifiedJoin) && tf.(sql.QualifiedJoin).JoinType == sql.RIGHT_JOIN ==> len(result0) >= jlen(tf.(sql.QualifiedJoin).RHS)
+//@   loop 4 invariant[left.count; C06] len(tmpRows) >= rangeindex + 1
+//@   loop 5 invariant[left.count; C06] len(tmpRows) >= rangeindex4 + 1 + (hasMatch ? 1 : 0)
+//@   loop 6 invariant[right.count; C06] len(tmpRows) >= rangeindex + 1
+//@   loop 7 invariant[right.count; C06] len(tmpRows) >= rangeindex6 + 1 + (hasMatch ? 1 : 0)
 //@   ensures[shape; C06 C18] err == nil ==> storage.fieldsOK(result1) && rowsFit(result1, result0)
 //@   ensures[fresh] err == nil ==> (result0 == nil || fresh(result0)) && (result1 == nil || fresh(result1))
 //@   ensures[freshrows] err == nil ==> (forall i int :: 0 <= i && i < len(result0) ==> fresh(result0[i]) && (result0[i].Vals == nil || fresh(result0[i].Vals)))
